@@ -3,7 +3,7 @@ import PanqecVerif.Model.Lattices.Color666ToricCode
 open Panqec
 
 /-! `lat Color666ToricCode <Lx> <Ly> qubits|stabs|stab <coord>|logx|logz|axis <coord>|
-    type <coord>|deform <name> <coord>|hmat|lxmat|lzmat|n|k` -/
+    type <coord>|deform <name> <coord>|hmat|lxmat|lzmat|rankfamily|n|k` -/
 namespace Drv
 
 def color666ToricCodeModel (Lx Ly : Nat) : ColorModel where
@@ -12,6 +12,8 @@ def color666ToricCodeModel (Lx Ly : Nat) : ColorModel where
   stabilizerType := Color666ToricCode.stabilizerType Lx Ly
   qubitAxis := Color666ToricCode.qubitAxis
   getDeformation := Color666ToricCode.getDeformation
+  -- the family `sel L` of `C01Color666ToricCode.rank_family` (square sizes `L × L`; asked for `Lx = Ly` only)
+  rankFamily := fun _ => some (Color666ToricCode.sel Lx)
 
 def handleLatColor666ToricCode : List String → Option String
   | "lat" :: "Color666ToricCode" :: lx :: ly :: rest =>
